@@ -4,6 +4,7 @@ set -u
 TIER="${1:-quick}"; REPLAY="${2:-}"
 export CARGO_NET_OFFLINE=true
 HERE="$(cd "$(dirname "$0")" && pwd)"
+export VERIF_HOME="$HERE"
 cd "$HERE/fc-shuttle" || exit 2
 if ! cargo build --offline -q 2> "$HERE/fc-shuttle/build.log"; then
   echo "HARNESS-ERROR: building the C19 harness against /repo failed"; tail -30 "$HERE/fc-shuttle/build.log"; exit 2
